@@ -2969,6 +2969,22 @@ func (c S3ApiController) DeleteBucket(ctx *fiber.Ctx) error {
 			})
 	}
 
+	// the deletion of a bucket setting that is not supported
+	// must not be taken for the deletion of the bucket
+	for _, sub := range []string{"lifecycle", "encryption", "website",
+		"replication", "publicAccessBlock", "analytics", "metrics",
+		"inventory", "intelligent-tiering", "metadataTable"} {
+		if ctx.Request().URI().QueryArgs().Has(sub) {
+			return SendResponse(ctx, s3err.GetAPIError(s3err.ErrNotImplemented),
+				&MetaOpts{
+					Logger:      c.logger,
+					MetricsMng:  c.mm,
+					Action:      metrics.ActionDeleteBucket,
+					BucketOwner: parsedAcl.Owner,
+				})
+		}
+	}
+
 	err := auth.VerifyAccess(ctx.Context(), c.be,
 		auth.AccessOptions{
 			Readonly:      c.readonly,
